@@ -227,6 +227,51 @@ def wide_pair(r, max_kids=30):
     return L.number(0), R.number(1000)
 
 
+NS = {"p": "urn:verif:p", "q": "urn:verif:q", "x": "http://verif.example/x"}
+
+
+def ns_pair(r, max_nodes=12):
+    """Namespaced documents of the C01 domain: every prefix declared once on the root, one
+    prefix per URI, no default namespace, no reserved ns<digits> prefixes.  The right root
+    may declare prefixes the left root lacks (InsertNamespace) and vice versa."""
+    lp = r.sample(sorted(NS), r.randint(1, 3))
+    rp = r.sample(sorted(NS), r.randint(1, 3))
+    if r.random() < 0.5:
+        rp = sorted(set(lp) | set(rp))
+
+    def qualify(t, prefixes):
+        for n in t.iter():
+            if n.kind == "e" and r.random() < 0.6:
+                n.tag = "{%s}%s" % (NS[r.choice(prefixes)], n.tag.split("}")[-1])
+            if n.kind == "e" and n.attrs and r.random() < 0.3:
+                k, v = n.attrs[0]
+                if not k.startswith("{"):
+                    n.attrs[0] = ("{%s}%s" % (NS[r.choice(prefixes)], k), v)
+        return t
+
+    L = qualify(rand_tree(r, max_nodes), lp)
+    if r.random() < 0.6:
+        R = mutate(r, L)
+        # re-qualify some nodes with prefixes of the right document only
+        for n in R.iter():
+            if n.kind == "e" and n.tag.startswith("{"):
+                uri = n.tag[1:].split("}")[0]
+                if uri not in [NS[p] for p in rp]:
+                    n.tag = "{%s}%s" % (NS[r.choice(rp)], n.tag.split("}")[1])
+            n.attrs = [(k, v) for k, v in n.attrs if not k.startswith("{urn") and not k.startswith("{http://verif")]
+        if r.random() < 0.5:
+            qualify(R, rp)
+    else:
+        R = qualify(rand_tree(r, max_nodes), rp)
+    for n in L.iter():
+        n.attrs = [(k, v) for k, v in n.attrs if not (k.startswith("{") and "verif" in k and k[1:].split("}")[0] not in [NS[p] for p in lp])]
+    L.nsmap = {p: NS[p] for p in lp}
+    R.nsmap = {p: NS[p] for p in rp}
+    L.tail = None
+    R.tail = None
+    return L.number(0), R.number(1000)
+
+
 F_VALUES = [0.1, 0.3, 0.5, 0.5, 0.5, 0.7071067811865476, 0.72, 0.9, 1.0]
 UNIQUE_CHOICES = [None, None, [], ["id"], [("a", "id")], ["id", "k"], [("b", "k"), "id"], [XMLID, "n"]]
 
